@@ -58,7 +58,8 @@ fn request_bytes(n: usize) -> Vec<u8> {
 
 pub async fn run_case(case: Vec<String>) -> String {
     *READ_GATE.lock() = None;
-    let incoming = case[2] == "in";
+    // "in": a connection accepted as soon as the listener runs; "in@<ms>": accepted after the listener has been waiting that long
+    let incoming = case[2] == "in" || case[2].starts_with("in@");
     let remote: SocketAddr = "10.9.9.9:5060".parse().unwrap();
     let delivered: Arc<Mutex<usize>> = Default::default();
     let mut builder = Endpoint::builder();
@@ -82,6 +83,10 @@ pub async fn run_case(case: Vec<String>) -> String {
     if incoming {
         let (a, b) = tokio::io::duplex(1 << 20);
         local = "10.0.0.1:5060".parse().unwrap();
+        if let Some(ms) = case[2].strip_prefix("in@").and_then(|v| v.parse::<u64>().ok()) {
+            tokio::time::sleep(std::time::Duration::from_millis(ms)).await;
+            settle_now().await;
+        }
         tx.send((MockStream::<false> { io: a, local, peer: remote }, remote)).unwrap();
         peer = Some(b);
         settle_now().await;
